@@ -1,28 +1,34 @@
-"""python3 -m vk.pins UNIT [--update]: show (or rewrite in the template) the hashes of //@pin and //@glue lines."""
-import re, sys, os
+"""python3 -m vk.pins UNIT [--update]: show (or rewrite in the templates) the hashes of //@pin and //@glue lines."""
+import sys, os
 from .assemble import assemble, ROOT
 name = sys.argv[1]
 tmpl = os.path.join(ROOT, 'units', name + '.vrs')
 u = assemble(tmpl, os.path.join(ROOT, 'build', name + '.rs'))
-lines = open(tmpl).read().split('\n')
+files = {}
+def lines_of(f):
+    if f not in files:
+        files[f] = open(f).read().split('\n')
+    return files[f]
 for p in u.pins:
     print('pin %s::%s pinned=%s actual=%s %s' % (p['file'], p['name'], p['sha'], p['actual'], 'ok' if p['ok'] else 'DIFF'))
     if '--update' in sys.argv and not p['ok']:
-        l = lines[p['line'] - 1]
-        parts = l.split(' :: ')
-        parts[3:4] = [p['actual']] if len(parts) > 3 else []
-        if len(parts) <= 3:
+        L = lines_of(p['tfile'])
+        parts = L[p['line'] - 1].split(' :: ')
+        if len(parts) > 3:
+            parts[3] = p['actual']
+        else:
             parts.append(p['actual'])
-        lines[p['line'] - 1] = ' :: '.join(parts)
+        L[p['line'] - 1] = ' :: '.join(parts)
 for g in u.glue:
     print('glue %s pinned=%s actual=%s %s' % (g['id'], g['sha'], g['actual'], 'ok' if g['ok'] else 'DIFF'))
     if '--update' in sys.argv and not g['ok'] and g['actual'] != 'anchor-lost':
-        l = lines[g['line'] - 1]
-        parts = l.split(' :: ')
+        L = lines_of(g['tfile'])
+        parts = L[g['line'] - 1].split(' :: ')
         if len(parts) > 6:
             parts[6] = g['actual']
         else:
             parts.append(g['actual'])
-        lines[g['line'] - 1] = ' :: '.join(parts)
+        L[g['line'] - 1] = ' :: '.join(parts)
 if '--update' in sys.argv:
-    open(tmpl, 'w').write('\n'.join(lines))
+    for f, L in files.items():
+        open(f, 'w').write('\n'.join(L))
